@@ -348,9 +348,27 @@ func perturb(r *hx.Rand, s string) string {
 	if i < 0 {
 		return s
 	}
-	switch r.Intn(5) {
+	frac := s
+	if !strings.Contains(s, ".") {
+		frac = s + "."
+	}
+	switch r.Intn(6) {
 	case 0:
 		return s
+	case 5:
+		// just above the written value, but only beyond the 800 digits decimal.go keeps:
+		// the slow path must remember that it truncated non-zero digits
+		nd := 0
+		for _, c := range frac {
+			if c >= '0' && c <= '9' {
+				nd++
+			}
+		}
+		pad := 805 + r.Intn(40) - nd
+		if pad < 1 {
+			pad = 1
+		}
+		return frac + strings.Repeat("0", pad) + "1"
 	case 1:
 		if bs[i] < '9' {
 			bs[i]++
@@ -364,7 +382,7 @@ func perturb(r *hx.Rand, s string) string {
 			return s + "0"
 		}
 	case 3:
-		return s + "0000000000000000000000001"
+		return frac + "0000000000000000000000001"
 	default:
 		// drop the last digit and append 49999…/50000…1
 		if r.Bool() {
